@@ -41,12 +41,125 @@ metacharacter into a live one: `\x2a` becomes `*`. -/
 theorem undoX_makes_metacharacters_live :
     undoX Gen.Xsd.hexClassX [97, 92, 120, 50, 97, 98] = .ok [97, 42, 98] := by decide
 
-/-- **Finding C13-F1 (negation witness).** The preparation of a pattern for the external
-intersection (`_undo_escaping_backslash_x_u_and_U_in_pattern`, used when a value has two or more
-patterns) does the same: `a\x2ab` and `a\u002ab` become `a*b`, in which the star is a quantifier. -/
-theorem undoXuU_makes_metacharacters_live :
-    undoXuU Gen.Xsd.hexClassXuU [97, 92, 120, 50, 97, 98] = .ok [97, 42, 98] ∧
-    undoXuU Gen.Xsd.hexClassXuU [97, 92, 117, 48, 48, 50, 97, 98] = .ok [97, 42, 98] := by decide
+/-! ### The patterns handed to the external intersection (former findings C13-F1 / C14-F1)
+
+A value with two or more patterns goes through `greenery`.  The patterns were prepared by a *textual*
+replacement of `\\xHH`/`\\uHHHH`/`\\UHHHHHHHH` (as `undoX` above), so `a\\x2ab` became `a*b` with a live star, and
+the anchors were handed over as the characters `^` and `$`.  The repair parses the pattern, removes the anchors and
+renders the tree with `_GreeneryRenderer`. -/
+
+/-- *table*: in the tables of `_GreeneryRenderer` every character that `greenery` reads as special — outside of a
+character set `\\ [ ] | ( ) . ? * + { }`, inside `\\ [ ] ^ -` (at any position) — is written as `\\c`; the only
+other entries are the mnemonic escapes `\\t \\n \\v \\f \\r` of `greenery`; in particular `^` and `$` outside of a
+set have no entry (`greenery` reads them verbatim and refuses `\\^`). -/
+theorem greenery_tables_ok :
+    grnTableOk grnMetaLit Gen.Xsd.grnLiteral = true ∧ grnTableOk grnMetaRng Gen.Xsd.grnRange = true := by decide
+
+/-- **An encoded special character is never live** in the text handed to `greenery`: whatever way the character
+was written in the pattern (`enc`: as `\\xHH`/`\\uHHHH`/`\\UHHHHHHHH`), a character that is special outside of a
+character set is written as `\\c` … -/
+theorem greenery_literal_never_live (code : Nat) (enc : Bool) (h : code ∈ grnMetaLit) :
+    grnChr Gen.Xsd.grnLiteral ⟨code, enc⟩ = [92, code] := by
+  have : ∀ m ∈ grnMetaLit, escLookup m Gen.Xsd.grnLiteral = some [92, m] := by decide
+  simp only [grnChr, this code h]
+
+/-- … and so is a character that is special inside a character set, at every position of the set. -/
+theorem greenery_member_never_live (code : Nat) (enc : Bool) (h : code ∈ grnMetaRng) :
+    grnChr Gen.Xsd.grnRange ⟨code, enc⟩ = [92, code] := by
+  have : ∀ m ∈ grnMetaRng, escLookup m Gen.Xsd.grnRange = some [92, m] := by decide
+  simp only [grnChr, this code h]
+
+/-- The witnesses of the former findings C13-F1 / C14-F1: `^a\\x2ab$` ↦ `a\\*b` (it was `^a*b$`),
+`^a\\u002bb$` ↦ `a\\+b`, `^[\\x5ea]+$` ↦ `[\\^a]+` (it was the complemented set `[^a]+`),
+`^[a-z*]+$` ↦ `[a-z*]+`, `^[-a]$` ↦ `[\\-a]`. -/
+theorem greenery_escaped_metacharacters_stay_literal :
+    renderForGreenery Gen.Xsd.grnLiteral Gen.Xsd.grnRange [94, 97, 92, 120, 50, 97, 98, 36] = .ok [97, 92, 42, 98] ∧
+    renderForGreenery Gen.Xsd.grnLiteral Gen.Xsd.grnRange [94, 97, 92, 117, 48, 48, 50, 98, 98, 36] = .ok [97, 92, 43, 98] ∧
+    renderForGreenery Gen.Xsd.grnLiteral Gen.Xsd.grnRange [94, 91, 92, 120, 53, 101, 97, 93, 43, 36]
+      = .ok [91, 92, 94, 97, 93, 43] ∧
+    renderForGreenery Gen.Xsd.grnLiteral Gen.Xsd.grnRange [94, 91, 97, 45, 122, 42, 93, 43, 36]
+      = .ok [91, 97, 45, 122, 42, 93, 43] ∧
+    renderForGreenery Gen.Xsd.grnLiteral Gen.Xsd.grnRange [94, 91, 45, 97, 93, 36] = .ok [91, 92, 45, 97, 93] := by
+  decide
+
+/-- **The anchors are not handed over as characters** (second repair): `^.*$` ↦ `.*`, `^a[$]b$` ↦ `a[$]b`, and the
+literal `\\$` / `\\x5e` outside of a set are written verbatim, as `greenery` reads them: `^a\\$\\x5e$` ↦ `a$^`. -/
+theorem greenery_gets_no_anchors :
+    renderForGreenery Gen.Xsd.grnLiteral Gen.Xsd.grnRange [94, 46, 42, 36] = .ok [46, 42] ∧
+    renderForGreenery Gen.Xsd.grnLiteral Gen.Xsd.grnRange [94, 97, 91, 36, 93, 98, 36] = .ok [97, 91, 36, 93, 98] ∧
+    renderForGreenery Gen.Xsd.grnLiteral Gen.Xsd.grnRange [94, 97, 92, 36, 92, 120, 53, 101, 36] = .ok [97, 36, 94] := by
+  decide
+
+theorem escAnchors_leaves_no_anchor_aux : ∀ (n : Nat) (t : Text) (inSet : Bool), t.length ≤ n →
+    liveAnchor inSet (escAnchors inSet t) = false := by
+  intro n
+  induction n with
+  | zero =>
+    intro t inSet h
+    cases t with
+    | nil => simp [escAnchors, liveAnchor]
+    | cons c r => simp at h
+  | succ n ih =>
+    intro t inSet hlen
+    cases t with
+    | nil => simp [escAnchors, liveAnchor]
+    | cons c r =>
+      simp only [List.length_cons] at hlen
+      by_cases hc : c = 92
+      · subst hc
+        cases r with
+        | nil => simp [escAnchors, liveAnchor]
+        | cons d r' =>
+          have := ih r' inSet (by simp only [List.length_cons] at hlen; omega)
+          simp [escAnchors, liveAnchor, this]
+      · cases inSet with
+        | true =>
+          have := ih r (c != 93) (by omega)
+          rw [escAnchors.eq_def]
+          simp only [hc, if_false, if_true]
+          rw [liveAnchor.eq_def]
+          simp only [hc, if_false, if_true]
+          exact this
+        | false =>
+          by_cases h91 : c = 91
+          · subst h91
+            have := ih r true (by omega)
+            rw [escAnchors.eq_def]
+            simp only [Nat.reduceEqDiff, if_false, if_true, Bool.false_eq_true]
+            rw [liveAnchor.eq_def]
+            simp only [Nat.reduceEqDiff, if_false, if_true, Bool.false_eq_true]
+            exact this
+          · by_cases ha : c = 94 ∨ c = 36
+            · have := ih r false (by omega)
+              rw [escAnchors.eq_def]
+              simp only [hc, h91, ha, if_false, if_true, Bool.false_eq_true]
+              rw [liveAnchor.eq_def]
+              simp only [if_true]
+              exact this
+            · have := ih r false (by omega)
+              rw [escAnchors.eq_def]
+              simp only [hc, h91, ha, if_false, if_true, Bool.false_eq_true]
+              rw [liveAnchor.eq_def]
+              simp only [hc, h91, ha, if_false, if_true, Bool.false_eq_true]
+              exact this
+
+/-- **After the intersection no `^`/`$` is read as an anchor.** The text `greenery` renders goes through
+`_escape_carets_and_dollars_rendered_by_greenery` before `_translate_pattern`; in its result no `^` or `$`
+outside of a character set is left without a backslash — for every text. -/
+theorem escAnchors_leaves_no_anchor (t : Text) (inSet : Bool) : liveAnchor inSet (escAnchors inSet t) = false :=
+  escAnchors_leaves_no_anchor_aux t.length t inSet (Nat.le_refl _)
+
+/-- the witnesses: `a$b` ↦ `a\\$b`, `($*[^$x])*` ↦ `(\\$*[^$x])*` (the intersection of `.*` and `[^x]*` without the
+anchors would be `[^x]*`; this is the shape `greenery` wrote when the anchors were characters), `a\\^[\\^$]^` is
+left alone inside the escape and the set. -/
+example : escAnchors false [97, 36, 98] = [97, 92, 36, 98] := by decide
+example : escAnchors false [40, 36, 42, 91, 94, 36, 120, 93, 41, 42] = [40, 92, 36, 42, 91, 94, 36, 120, 93, 41, 42] := by decide
+example : escAnchors false [97, 92, 94, 91, 92, 94, 36, 93, 94] = [97, 92, 94, 91, 92, 94, 36, 93, 92, 94] := by decide
+
+/-- *skeleton*: `_render_pattern_for_greenery` is parse → remove anchors → render with the renderer for greenery. -/
+theorem greenery_pipeline_shape : Gen.Xsd.greenerySteps =
+    ["ensure", "parse_retree.parse", "parse_retree.render_pointer", "_AnchorRemover", "remover.visit",
+     "parse_retree.render(renderer=_GREENERY_RENDERER)", "parts.append"] := by decide
 
 /-- *skeleton*: `_translate_pattern` is parse → find non-XML characters → remove anchors → render
 with the XSD renderer; in particular no textual un-escaping precedes the parser. -/
@@ -54,11 +167,10 @@ theorem pipeline_shape : Gen.Xsd.translateSteps =
     ["ensure", "parse_retree.parse", "parse_retree.render_pointer", "_NonXmlCharacterFinder", "finder.visit",
      "_AnchorRemover", "remover.visit", "parse_retree.render(renderer=_XSD_RENDERER)", "parts.append"] := by decide
 
-/-- *table*: the character class of both un-escaping expressions holds hexadecimal digits only
+/-- *table*: the character class of the un-escaping expression holds hexadecimal digits only
 (it was `a-fA-f0-9`, which made `int(…, 16)` raise). -/
 theorem hex_classes_are_hex :
-    (List.range 256).all (fun c => (!inClass Gen.Xsd.hexClassX c || (hexVal1 c).isSome) &&
-      (!inClass Gen.Xsd.hexClassXuU c || (hexVal1 c).isSome)) = true := by decide +kernel
+    (List.range 256).all (fun c => (!inClass Gen.Xsd.hexClassX c || (hexVal1 c).isSome)) = true := by decide +kernel
 
 /-- *table*: the primitive types are mapped to the five XSD built-ins the validity model knows. -/
 theorem primitive_map : Gen.Xsd.primitiveMap =
